@@ -3798,7 +3798,9 @@ def write_pack_from_container(
       other_haves: Set of additional object IDs the receiver has
     Returns: Dict mapping id -> (offset, crc32 checksum), pack checksum
     """
-    pack_contents_count = len(object_ids)
+    # generate_unpacked_objects yields every object once, also when its id is
+    # listed twice
+    pack_contents_count = len(dict(object_ids))
     pack_contents = generate_unpacked_objects(
         container,
         object_ids,
